@@ -42,14 +42,22 @@ def rnd_report(rng, valid=True):
         f = rnd_enum(rng, "code")
         f["data"] = [rng.randrange(256) for _ in range(rng.choice([0, 0, 1, 4, 30]))]
         fail = [f]
+        if rng.random() < 0.15:
+            f["data"] = "echo"            # filled in below: the failure data echoes the start of the rejected telecommand
     if not valid:
         if rng.random() < 0.5:
             step = [] if step else [rnd_enum(rng)]
         else:
             fail = [] if fail else [{"w": 1, "code": [3], "data": []}]
+    req = rnd_req(rng)
+    for f in fail:
+        if f.get("data") == "echo":
+            w0 = (req["ver"] << 13) | (req["type"] << 12) | (req["shf"] << 11) | req["apid"]
+            w1 = (req["flags"] << 14) | req["count"]
+            f["data"] = [w0 >> 8, w0 & 255, w1 >> 8, w1 & 255] + [rng.randrange(256) for _ in range(rng.choice([0, 1, 9]))]
     return {"apid": rng.choice([0, 2047, rng.randrange(2048)]), "seq": rng.randrange(16384), "ver": rng.randrange(8),
             "timeref": rng.randrange(16), "dest": rng.randrange(65536),
-            "stamp": [rng.randrange(256) for _ in range(rng.choice([0, 7, 7, 3, 16]))], "sub": sub, "req": rnd_req(rng),
+            "stamp": [rng.randrange(256) for _ in range(rng.choice([0, 7, 7, 3, 16]))], "sub": sub, "req": req,
             "step": step, "fail": fail}
 
 
